@@ -308,7 +308,7 @@ func init() {
 // LevelText so that MANIFEST.json describes the checks as they are.
 var levelExtra = map[string]string{
 	"C01": "Also: an ssh-rsa recipient with a 2049-bit modulus; an empty Write while exactly one full chunk is buffered; every Write passes a scratch slice that is overwritten afterwards.",
-	"C02": "Also: io.Copy as consumer, a source failing once where the original file ended, armored truncations/extensions, appended bytes after the armor END line directly and behind 1024 spaces / 1500 newlines.",
+	"C02": "Also: the armored text of the file cut at every position near a line boundary (incl. a size whose binary length is a multiple of 48); io.Copy as consumer, a source failing once where the original file ended, armored truncations/extensions, appended bytes after the armor END line directly and behind 1024 spaces / 1500 newlines.",
 	"C03": "Also: nine respellings of every stanza argument (base64 padding appended, other case, doubled, shortened, prefixed); every edit is decrypted with [opener], [opener, stranger] and (one edit in eight) strangers around the opener; recipient lists include a foreign stanza whose type and arguments contain '---'.",
 	"C04": "Also: files with 255, 256, 257, 1024, 1025 and 1100 X25519 recipients against strangers; reference-built files without any stanza, keyed with the empty, the all-zero and an arbitrary file key, against every identity type alone and in lists.",
 	"C05": "Also: reference and corpus files read with a 1 MiB buffer and with io.Copy; a tape-driven Encrypt after every failed Encrypt (destination failing at write call 0..7); io.Copy from data+EOF and half-delivery sources as producer; passphrase files sharing a salt but not a work factor opened in every order of two and three.",
@@ -318,11 +318,11 @@ var levelExtra = map[string]string{
 	"C09": "Also: native and plugin strings re-encoded with the Bech32m checksum constant; the last six parsed plugin keys are re-checked after every later parse (aliasing); every two-region case pattern (one case up to each split position, the other after it) of native and plugin strings.",
 	"C10": "Also: a refused (panicking, recovered) SetMaxWorkFactor / SetWorkFactor call with 9 illegal values must leave the earlier configuration in force; an identity that has opened a valid stanza is offered the same salt and body under every refused work-factor spelling; stanza types ending in '-grease' next to the scrypt stanza.",
 	"C11": "Also: recipients that return no stanza at all but declare labels; declarations with a repeated label (judged where the set and the multiset reading agree); the age command with scripted plugins declaring labels, via -r and -R, with and without -a.",
-	"C12": "Also: armored files whose last base64 line and whose final chunk are both full (1..16 recipients x 1..3 chunks where the lengths align); every Write passes a scratch slice overwritten afterwards; io.Copy/io.CopyBuffer producers (plain, data+EOF, half, one-byte, bufio); io.Copy and interleaved-decryption consumers; the armor reader alone under 10 read sizes on valid and damaged armor.",
+	"C12": "Also: a valid file whose header has a stanza line longer than 4 KiB; armored files whose last base64 line and whose final chunk are both full (1..16 recipients x 1..3 chunks where the lengths align); every Write passes a scratch slice overwritten afterwards; io.Copy/io.CopyBuffer producers (plain, data+EOF, half, one-byte, bufio); io.Copy and interleaved-decryption consumers; the armor reader alone under 10 read sizes on valid and damaged armor.",
 	"C13": "Also: after every faulted execution a healthy encryption in the same process must produce a complete valid file.",
-	"C14": "Also: files with a full final chunk edited at the tail; strict identities used after lenient ones; cmd/age's own key-file parsers (main hook) on every string of length <=5 (thorough 6) over an options-like alphabet and on one-byte edits of valid lines.",
+	"C14": "Also: cmd/age LazyScryptIdentity and EncryptedIdentity on reference-built headers with 0..3 stanzas of odd shapes (main hook); files with a full final chunk edited at the tail; strict identities used after lenient ones; cmd/age's own key-file parsers (main hook) on every string of length <=5 (thorough 6) over an options-like alphabet and on one-byte edits of valid lines.",
 	"C15": "Also: -o /dev/null, /dev/stdout and a FIFO; whitespace inserted before a binary header; 10 spellings of the same file incl. non-canonical absolute ones; age-keygen -o naming the existing file through symbolic links.",
-	"C16": "Also: opening lines longer than 4 KiB; secrets of 47-100 bytes as prompt answers; every call into the client runs under a one-minute watchdog and the exploration stops (exhaustive:false, violation) at the first call that never returns.",
+	"C16": "Also: confirm labels that are base64 with non-zero trailing bits; opening lines longer than 4 KiB; secrets of 47-100 bytes as prompt answers; every call into the client runs under a one-minute watchdog and the exploration stops (exhaustive:false, violation) at the first call that never returns.",
 	"C17": "Also: plugins placed next to an age binary that is itself run from a directory not on PATH; executables installed in the working directory and TMPDIR but not on PATH (library and CLI positions): nothing may start.",
 	"C18": "Also: keys re-encoded with the Bech32m checksum constant; SSH key lines with leading blanks; keys in which a 'q' is replaced by a character outside the Bech32 alphabet.",
 	"C19": "Also: a key file holding an RSA key with the declared modulus but another public exponent; identity kinds whose key file holds an ECDSA key, a 1024-bit RSA key, and an OpenSSH Ed25519 key whose private and public halves disagree; every call runs under a two-minute watchdog.",
